@@ -1,0 +1,513 @@
+// Verification contracts (comment-only, compiled only with the "verif" build tag; read by /verif/govc).
+
+//go:build verif
+// +build verif
+
+package core
+
+// Contracts for tx_noncer.go, tx_list.go, tx_pool.go — property C20:
+// "the transaction pool's views stay consistent under any operation order".
+
+// ---------------------------------------------------------------------------------------------------------------
+// World state behind *state.StateDB as seen by the pool (trusted model, /verif/specs/stdlib/c20_statedb.spec)
+// ---------------------------------------------------------------------------------------------------------------
+//@ spec func c20StateNonce(st: *state.StateDB, a: common.Address) int
+//@ spec func c20StateBal(st: *state.StateDB, a: common.Address) int
+
+// ---------------------------------------------------------------------------------------------------------------
+// tx_noncer.go: the virtual nonces
+// ---------------------------------------------------------------------------------------------------------------
+
+//@ func (*txNoncer).get props C20
+//@ panics none
+//@ requires [nonnil] txn != nil && txn.nonces != nil && txn.fallback != nil
+//@ modifies mapof(txn.nonces)
+//@ ensures [tracked-or-fallback] result == (if old(in(addr, txn.nonces)) then old(txn.nonces[addr]) else c20StateNonce(txn.fallback, addr))
+//@ ensures [cached] in(addr, txn.nonces) && txn.nonces[addr] == result
+//@ ensures [others-kept] forall a: common.Address :: a != addr ==> in(a, txn.nonces) == old(in(a, txn.nonces)) && txn.nonces[a] == old(txn.nonces[a])
+
+//@ func (*txNoncer).set props C20
+//@ panics none
+//@ requires [nonnil] txn != nil && txn.nonces != nil
+//@ modifies mapof(txn.nonces)
+//@ ensures [set] in(addr, txn.nonces) && txn.nonces[addr] == nonce
+//@ ensures [others-kept] forall a: common.Address :: a != addr ==> in(a, txn.nonces) == old(in(a, txn.nonces)) && txn.nonces[a] == old(txn.nonces[a])
+
+//@ func (*txNoncer).setIfLower props C20
+//@ panics none
+//@ requires [nonnil] txn != nil && txn.nonces != nil && txn.fallback != nil
+//@ let cur = if in(addr, txn.nonces) then txn.nonces[addr] else c20StateNonce(txn.fallback, addr)
+//@ modifies mapof(txn.nonces)
+//@ ensures [min] in(addr, txn.nonces) && txn.nonces[addr] == min(cur, nonce)
+//@ ensures [never-raises] txn.nonces[addr] <= cur
+//@ ensures [others-kept] forall a: common.Address :: a != addr ==> in(a, txn.nonces) == old(in(a, txn.nonces)) && txn.nonces[a] == old(txn.nonces[a])
+
+// ---------------------------------------------------------------------------------------------------------------
+// tx_list.go: txSortedMap — nonce -> transaction map with a heap index of its keys
+// ---------------------------------------------------------------------------------------------------------------
+
+// Content of the nonce heap, abstractly (uninterpreted functions of the slice content; the trusted contracts of container/heap in
+// /verif/specs/stdlib/c20_heap.spec are stated over them): the set of its elements, pairwise distinctness, the heap order.
+//@ spec func c20HSet(a: seq[uint64], o: int, n: int) set[int]
+//@ spec func c20HDist(a: seq[uint64], o: int, n: int) bool
+//@ spec func c20IsHeap(a: seq[uint64], o: int, n: int) bool
+//@ spec func c20SetOf(h: *nonceHeap) set[int] = c20HSet(elems(*h), off(*h), len(*h))
+//@ spec func c20DistOf(h: *nonceHeap) bool = c20HDist(elems(*h), off(*h), len(*h))
+//@ spec func c20HeapOf(h: *nonceHeap) bool = c20IsHeap(elems(*h), off(*h), len(*h))
+// the root of a heap is a least element; an empty heap has no elements
+//@ spec func c20RootOK(h: *nonceHeap) bool =
+//@     (len(*h) == 0 ==> forall y: int :: { in(y, c20SetOf(h)) } !in(y, c20SetOf(h))) &&
+//@     (len(*h) > 0 ==> in((*h)[0], c20SetOf(h)) && forall y: int :: { in(y, c20SetOf(h)) } in(y, c20SetOf(h)) ==> (*h)[0] <= y)
+
+// nonce of a transaction (immutable field)
+//@ spec func c20Nonce(tx: *types.Transaction) int = tx.data.AccountNonce
+
+// Representation invariant of txSortedMap: every key maps to a non-nil transaction carrying that nonce, and the index holds
+// exactly the keys, once each, in heap order.
+//@ spec func c20ItemsOK(m: *txSortedMap) bool = m.items != nil &&
+//@     (forall k: int :: { in(k, mapdom(m.items)) } { mapval(m.items)[k] } in(k, m.items) ==> 0 <= k && k < 2^64 && m.items[k] != nil && c20Nonce(m.items[k]) == k)
+// the cached sorted view, when present, has one entry per item (its order is not modelled)
+//@ spec func c20CacheOK(m: *txSortedMap) bool = isnil(m.cache) || len(m.cache) == len(m.items)
+//@ spec func c20IndexKeys(m: *txSortedMap) bool = mapdom(m.items) == c20SetOf(m.index)
+//@ spec func c20IndexHeap(m: *txSortedMap) bool = c20HeapOf(m.index) && c20RootOK(m.index)
+//@ spec func c20IndexOK(m: *txSortedMap) bool = m.index != nil && c20IndexKeys(m) && c20DistOf(m.index) && len(*m.index) == len(m.items) && c20IndexHeap(m)
+//@ spec func c20MapOK(m: *txSortedMap) bool = c20ItemsOK(m) && c20IndexOK(m) && c20CacheOK(m)
+
+// Object invariant: c20MapOK is established by newTxSortedMap, assumed at the entry of the methods and re-established by each of them
+// ([wf] clauses; for Filter, Cap and Flatten the index / cache part is `assumed`, see there); no other function of the package writes the
+// three fields or updates the map (`owns`, checked on the SSA of the whole package).
+//@ owns txSortedMap.items, txSortedMap.index, txSortedMap.cache by newTxSortedMap, (*txSortedMap).Put, (*txSortedMap).Forward, (*txSortedMap).Filter, (*txSortedMap).Cap, (*txSortedMap).Remove, (*txSortedMap).Ready, (*txSortedMap).Flatten props C20
+
+// newTxSortedMap: fresh, empty. The index part of the invariant is `assumed`: the engine does not model the zero value of the cell
+// allocated by new(nonceHeap) (engine_requests/C20.md §5), and the abstract heap functions at n = 0 (no element, distinct, a heap) are definitional.
+//@ func newTxSortedMap props C20
+//@ panics none
+//@ modifies nothing
+//@ ensures [fresh-empty] fresh(result) && len(result.items) == 0 && isnil(result.cache)
+//@ ensures [wf-items] c20ItemsOK(result) && c20CacheOK(result)
+//@ ensures [wf-index] assumed c20IndexOK(result)
+
+//@ func (*txSortedMap).Len props C20
+//@ panics none
+//@ requires [nonnil] m != nil
+//@ assume [invariant] c20MapOK(m)
+//@ pure
+//@ opt noalloc
+//@ ensures [len] result == len(m.items)
+
+//@ func (*txSortedMap).Get props C20
+//@ panics none
+//@ requires [nonnil] m != nil
+//@ pure
+//@ opt noalloc
+//@ ensures [lookup] result == m.items[nonce]
+
+//@ func (*txSortedMap).Put props C20
+//@ panics none
+//@ requires [nonnil] m != nil && tx != nil
+//@ assume [invariant] c20MapOK(m)
+//@ modifies m.cache, mapof(m.items), *m.index, all(elems(uint64))
+//@ ensures [stored] in(c20Nonce(tx), m.items) && m.items[c20Nonce(tx)] == tx
+//@ ensures [others-kept] forall k: int :: k != c20Nonce(tx) ==> in(k, m.items) == old(in(k, m.items)) && m.items[k] == old(m.items[k])
+//@ ensures [cache-dropped] isnil(m.cache)
+//@ ensures [wf-items] c20ItemsOK(m)
+//@ ensures [wf-index-keys] c20IndexKeys(m)
+//@ ensures [wf-index-distinct] c20DistOf(m.index)
+//@ ensures [wf-index-len] m.index != nil && len(*m.index) == len(m.items)
+//@ ensures [wf-index-heap] c20IndexHeap(m)
+
+// Forward(threshold): removes exactly the nonces below the threshold and returns exactly the removed transactions.
+//@ func (*txSortedMap).Forward props C20
+//@ panics none
+//@ requires [nonnil] m != nil
+//@ assume [invariant] c20MapOK(m)
+//@ loop removed invariant [wf] c20ItemsOK(m) && c20IndexOK(m) && m.cache == old(m.cache)
+//@ loop removed invariant [subset] forall k: int :: { in(k, m.items) } in(k, m.items) ==> old(in(k, m.items)) && m.items[k] == old(m.items[k])
+//@ loop removed invariant [removed-below] forall k: int :: { old(in(k, m.items)) } old(in(k, m.items)) && !in(k, m.items) ==> k < threshold
+//@ loop removed invariant [count] len(removed) == old(len(m.items)) - len(m.items)
+//@ loop removed invariant [returned-below] forall j: int :: { removed[j] } 0 <= j && j < len(removed) ==> removed[j] != nil && c20Nonce(removed[j]) < threshold
+//@ loop removed invariant [returned-from-map] forall j: int :: { removed[j] } 0 <= j && j < len(removed) ==> (let n = c20Nonce(removed[j]) in let t = removed[j] in old(in(n, m.items) && m.items[n] == t))
+//@ loop removed invariant [popped-below-rest] forall j: int :: { removed[j] } 0 <= j && j < len(removed) ==> forall k: int :: { in(k, m.items) } in(k, m.items) ==> c20Nonce(removed[j]) < k
+//@ loop removed invariant [ascending] forall j: int :: { removed[j] } 0 < j && j < len(removed) ==> c20Nonce(removed[j - 1]) < c20Nonce(removed[j])
+//@ loop removed decreases len(*m.index)
+//@ ensures [same-objects] m.items == old(m.items) && m.index == old(m.index)
+//@ ensures [lists-untouched] forall x: *txList :: { x.txs } x.txs == old(x.txs) && x.costcap == old(x.costcap) && x.gascap == old(x.gascap) && x.strict == old(x.strict)
+//@ ensures [values-untouched] (forall b: *big.Int :: { big(b) } big(b) == old(big(b))) && (forall t: *types.Transaction :: { t.data } t.data == old(t.data))
+//@ ensures [removes-exactly-below] forall k: int :: { in(k, m.items) } in(k, m.items) <==> old(in(k, m.items)) && k >= threshold
+//@ ensures [kept-untouched] forall k: int :: { in(k, m.items) } in(k, m.items) ==> m.items[k] == old(m.items[k])
+//@ ensures [returned-were-below] forall j: int :: { result[j] } 0 <= j && j < len(result) ==> result[j] != nil && c20Nonce(result[j]) < threshold
+//@ ensures [returned-from-map] forall j: int :: { result[j] } 0 <= j && j < len(result) ==> (let n = c20Nonce(result[j]) in let t = result[j] in old(in(n, m.items) && m.items[n] == t))
+//@ ensures [count] len(result) == old(len(m.items)) - len(m.items)
+//@ ensures [ascending] forall j: int :: { result[j] } 0 < j && j < len(result) ==> c20Nonce(result[j - 1]) < c20Nonce(result[j])
+//@ ensures [wf] c20MapOK(m)
+
+// Ready(start): "gap-free from the given nonce". With lo = the least nonce present: nothing is returned when the map is empty or lo > start;
+// otherwise exactly the maximal run lo, lo+1, ..., lo+n-1 of present nonces is removed and returned in that order (lo < start is the
+// documented self-correction: stale lower nonces are handed out too; with lo == start the run starts at `start`).
+//@ func (*txSortedMap).Ready props C20
+//@ panics none
+//@ requires [nonnil] m != nil
+//@ assume [invariant] c20MapOK(m)
+//@ let lo = (*m.index)[0]
+//@ loop next invariant [wf] c20ItemsOK(m) && c20IndexOK(m)
+//@ loop next invariant [run-length] 0 <= len(ready) && lo + len(ready) <= 2^64 && next == wrap64(lo + len(ready))
+//@ loop next invariant [run-nonces] forall j: int :: { ready[j] } 0 <= j && j < len(ready) ==> ready[j] != nil && c20Nonce(ready[j]) == lo + j
+//@ loop next invariant [run-from-map] forall j: int :: { ready[j] } 0 <= j && j < len(ready) ==> (let n = c20Nonce(ready[j]) in let t = ready[j] in old(in(n, m.items) && m.items[n] == t))
+//@ loop next invariant [removed-run] forall k: int :: { in(k, m.items) } in(k, m.items) <==> old(in(k, m.items)) && !(lo <= k && k < lo + len(ready))
+//@ loop next invariant [kept-untouched] forall k: int :: { in(k, m.items) } in(k, m.items) ==> m.items[k] == old(m.items[k])
+//@ loop next invariant [rest-above] forall k: int :: { in(k, m.items) } in(k, m.items) ==> k >= lo + len(ready)
+//@ loop next invariant [count] len(ready) == old(len(m.items)) - len(m.items)
+//@ loop next decreases len(*m.index)
+//@ ensures [same-objects] m.items == old(m.items) && m.index == old(m.index)
+//@ ensures [lists-untouched] forall x: *txList :: { x.txs } x.txs == old(x.txs) && x.costcap == old(x.costcap) && x.gascap == old(x.gascap) && x.strict == old(x.strict)
+//@ ensures [values-untouched] (forall b: *big.Int :: { big(b) } big(b) == old(big(b))) && (forall t: *types.Transaction :: { t.data } t.data == old(t.data))
+//@ ensures [not-ready] old(len(m.items)) == 0 || lo > start ==> isnil(result) && len(result) == 0 && mapdom(m.items) == old(mapdom(m.items)) && mapval(m.items) == old(mapval(m.items)) && m.cache == old(m.cache)
+//@ ensures [least] old(len(m.items)) > 0 ==> old(in(lo, m.items)) && forall k: int :: { old(in(k, m.items)) } old(in(k, m.items)) ==> lo <= k
+//@ ensures [ready-nonempty] old(len(m.items)) > 0 && lo <= start ==> len(result) > 0
+//@ ensures [gap-free-run] forall j: int :: { result[j] } 0 <= j && j < len(result) ==> result[j] != nil && c20Nonce(result[j]) == lo + j
+//@ ensures [run-from-map] forall j: int :: { result[j] } 0 <= j && j < len(result) ==> (let n = c20Nonce(result[j]) in let t = result[j] in old(in(n, m.items) && m.items[n] == t))
+//@ ensures [maximal] len(result) > 0 ==> !old(in(lo + len(result), m.items))
+//@ ensures [removes-exactly-run] forall k: int :: { in(k, m.items) } in(k, m.items) <==> old(in(k, m.items)) && !(lo <= k && k < lo + len(result))
+//@ ensures [kept-untouched] forall k: int :: { in(k, m.items) } in(k, m.items) ==> m.items[k] == old(m.items[k])
+//@ ensures [count] len(result) == old(len(m.items)) - len(m.items)
+//@ ensures [wf] c20MapOK(m)
+
+// Remove(nonce): deletes exactly that nonce (map and index), reports whether it was present.
+// ASSUMED in Remove only ([set-member-has-position]): every member of the element set sits at some position — the one fact about the abstract
+// c20HSet that is needed when the code scans the index itself (Remove's linear search). True for "the set of the elements a[o..o+n)".
+//@ func (*txSortedMap).Remove props C20
+//@ panics none
+//@ requires [nonnil] m != nil
+//@ assume [invariant] c20MapOK(m)
+//@ assume [set-member-has-position] forall a: seq[uint64], o: int, n: int, x: int :: { in(x, c20HSet(a, o, n)) }
+//@     in(x, c20HSet(a, o, n)) ==> exists i: int :: o <= i && i < o + n && a[i] == x
+//@ loop i invariant [range] 0 <= i && i <= len(*m.index)
+//@ loop i invariant [not-found-yet] forall p: int :: { elems(*m.index)[p] } off(*m.index) <= p && p < off(*m.index) + i ==> elems(*m.index)[p] != nonce
+//@ loop i invariant [untouched] *m.index == old(*m.index) && elems(*m.index) == old(elems(*m.index))
+//@ loop i decreases len(*m.index) - i
+//@ ensures [same-objects] m.items == old(m.items) && m.index == old(m.index)
+//@ ensures [lists-untouched] forall x: *txList :: { x.txs } x.txs == old(x.txs) && x.costcap == old(x.costcap) && x.gascap == old(x.gascap) && x.strict == old(x.strict)
+//@ ensures [values-untouched] (forall b: *big.Int :: { big(b) } big(b) == old(big(b))) && (forall t: *types.Transaction :: { t.data } t.data == old(t.data))
+//@ ensures [found-iff-present] result == old(in(nonce, m.items))
+//@ ensures [removes-exactly-nonce] forall k: int :: { in(k, m.items) } in(k, m.items) <==> old(in(k, m.items)) && k != nonce
+//@ ensures [kept-untouched] forall k: int :: { in(k, m.items) } in(k, m.items) ==> m.items[k] == old(m.items[k])
+//@ ensures [count] len(m.items) == old(len(m.items)) - (if result then 1 else 0)
+//@ ensures [absent-unchanged] !result ==> m.cache == old(m.cache) && *m.index == old(*m.index) && elems(*m.index) == old(elems(*m.index))
+//@ ensures [wf] c20MapOK(m)
+
+// Filter(f): removes exactly the transactions f accepts and returns exactly those.
+// NOT VERIFIED here: that the index rebuilt from the remaining keys (append every key, heap.Init) satisfies c20IndexOK again — the
+// clause [wf-index] is `assumed` (see /verif/props/C20.json, engine_requests/C20.md: no cardinality for map ranges).
+//@ func (*txSortedMap).Filter props C20
+//@ panics none
+//@ pureparam filter
+//@ requires [nonnil] m != nil
+//@ assume [invariant] c20MapOK(m)
+//@ loop #1 invariant [wf-items] c20ItemsOK(m)
+//@ loop #1 invariant [subset] forall k: int :: { in(k, m.items) } in(k, m.items) ==> old(in(k, m.items)) && m.items[k] == old(m.items[k])
+//@ loop #1 invariant [visited-decided] forall k: int :: { in(k, visited) } old(in(k, m.items)) && in(k, visited) ==> (in(k, m.items) <==> !filter(old(m.items[k])))
+//@ loop #1 invariant [unvisited-kept] forall k: int :: { in(k, visited) } old(in(k, m.items)) && !in(k, visited) ==> in(k, m.items)
+//@ loop #1 invariant [count] len(removed) == old(len(m.items)) - len(m.items)
+//@ loop #1 invariant [returned-nonnil] forall j: int :: { removed[j] } 0 <= j && j < len(removed) ==> removed[j] != nil
+//@ loop #1 invariant [returned-match] forall j: int :: { removed[j] } 0 <= j && j < len(removed) ==> filter(removed[j])
+//@ loop #1 invariant [returned-gone] forall j: int :: { removed[j] } 0 <= j && j < len(removed) ==> !in(c20Nonce(removed[j]), m.items)
+//@ loop #1 invariant [returned-from-map] forall j: int :: { removed[j] } 0 <= j && j < len(removed) ==> (let n = c20Nonce(removed[j]) in let t = removed[j] in old(in(n, m.items) && m.items[n] == t))
+//@ ensures [same-objects] m.items == old(m.items) && m.index == old(m.index)
+//@ ensures [lists-untouched] forall x: *txList :: { x.txs } x.txs == old(x.txs) && x.costcap == old(x.costcap) && x.gascap == old(x.gascap) && x.strict == old(x.strict)
+//@ ensures [values-untouched] (forall b: *big.Int :: { big(b) } big(b) == old(big(b))) && (forall t: *types.Transaction :: { t.data } t.data == old(t.data))
+//@ ensures [removes-exactly-matching] forall k: int :: { in(k, m.items) } { old(in(k, m.items)) } in(k, m.items) <==> old(in(k, m.items)) && !filter(old(m.items[k]))
+//@ ensures [kept-untouched] forall k: int :: { in(k, m.items) } in(k, m.items) ==> m.items[k] == old(m.items[k])
+//@ ensures [returned-match] forall j: int :: { result[j] } 0 <= j && j < len(result) ==> result[j] != nil && filter(result[j])
+//@ ensures [returned-from-map] forall j: int :: { result[j] } 0 <= j && j < len(result) ==> (let n = c20Nonce(result[j]) in let t = result[j] in old(in(n, m.items) && m.items[n] == t))
+//@ ensures [count] len(result) == old(len(m.items)) - len(m.items)
+//@ ensures [nothing-removed-unchanged] len(result) == 0 ==> m.cache == old(m.cache) && *m.index == old(*m.index) && elems(*m.index) == old(elems(*m.index))
+//@ ensures [wf-items] c20ItemsOK(m) && c20CacheOK(m)
+//@ ensures [wf-index] assumed c20IndexOK(m)
+
+// Cap(threshold): keeps the `threshold` lowest nonces, removes and returns the others, highest first.
+// Cap reads the sorted index by position: the trusted contract of sort.Sort (c20_sort.spec) says that every position of the sorted slice holds a
+// member of its element set. NOT VERIFIED: c20IndexOK after truncation + heap.Init ([wf-index] is `assumed`).
+//@ func (*txSortedMap).Cap props C20
+//@ panics none
+//@ requires [nonnil] m != nil
+//@ requires [nonneg] threshold >= 0
+//@ assume [invariant] c20MapOK(m)
+//@ let n0 = len(m.items)
+//@ loop size invariant [range] threshold <= size && size <= n0 && size == len(m.items) && m.cache == old(m.cache)
+//@ loop size invariant [wf-items] c20ItemsOK(m)
+//@ loop size invariant [subset] forall k: int :: { in(k, m.items) } in(k, m.items) ==> old(in(k, m.items)) && m.items[k] == old(m.items[k])
+//@ loop size invariant [prefix-present] forall p: int :: { elems(*m.index)[p] } off(*m.index) <= p && p < off(*m.index) + size ==> in(elems(*m.index)[p], m.items)
+//@ loop size invariant [suffix-gone] forall p: int :: { elems(*m.index)[p] } off(*m.index) + size <= p && p < off(*m.index) + n0 ==> !in(elems(*m.index)[p], m.items)
+//@ loop size invariant [count] len(drops) == n0 - size
+//@ loop size invariant [dropped-nonnil] forall j: int :: { drops[j] } 0 <= j && j < len(drops) ==> drops[j] != nil
+//@ loop size invariant [dropped-from-map] forall j: int :: { drops[j] } 0 <= j && j < len(drops) ==> (let n = c20Nonce(drops[j]) in let t = drops[j] in old(in(n, m.items) && m.items[n] == t))
+//@ loop size invariant [dropped-gone] forall j: int :: { drops[j] } 0 <= j && j < len(drops) ==> !in(c20Nonce(drops[j]), m.items)
+//@ loop size invariant [dropped-descending] forall j: int :: { drops[j] } 0 < j && j < len(drops) ==> c20Nonce(drops[j]) < c20Nonce(drops[j - 1])
+//@ loop size invariant [dropped-last] len(drops) > 0 ==> size < n0 && c20Nonce(drops[len(drops) - 1]) == elems(*m.index)[off(*m.index) + size]
+//@ loop size invariant [dropped-above-rest] forall j: int :: { drops[j] } 0 <= j && j < len(drops) ==> c20Nonce(drops[j]) >= elems(*m.index)[off(*m.index) + size]
+//@ loop size decreases size
+//@ ensures [same-objects] m.items == old(m.items) && m.index == old(m.index)
+//@ ensures [lists-untouched] forall x: *txList :: { x.txs } x.txs == old(x.txs) && x.costcap == old(x.costcap) && x.gascap == old(x.gascap) && x.strict == old(x.strict)
+//@ ensures [values-untouched] (forall b: *big.Int :: { big(b) } big(b) == old(big(b))) && (forall t: *types.Transaction :: { t.data } t.data == old(t.data))
+//@ ensures [under-limit] n0 <= threshold ==> isnil(result) && len(result) == 0 && mapdom(m.items) == old(mapdom(m.items)) && mapval(m.items) == old(mapval(m.items)) &&
+//@     m.cache == old(m.cache) && *m.index == old(*m.index) && elems(*m.index) == old(elems(*m.index))
+//@ ensures [capped] n0 > threshold ==> len(m.items) == threshold && len(result) == n0 - threshold
+//@ ensures [kept-untouched] forall k: int :: { in(k, m.items) } in(k, m.items) ==> old(in(k, m.items)) && m.items[k] == old(m.items[k])
+//@ ensures [returned-nonnil] forall j: int :: { result[j] } 0 <= j && j < len(result) ==> result[j] != nil
+//@ ensures [returned-from-map] forall j: int :: { result[j] } 0 <= j && j < len(result) ==> (let n = c20Nonce(result[j]) in let t = result[j] in old(in(n, m.items) && m.items[n] == t))
+//@ ensures [returned-gone] forall j: int :: { result[j] } 0 <= j && j < len(result) ==> !in(c20Nonce(result[j]), m.items)
+//@ ensures [descending] forall j: int :: { result[j] } 0 < j && j < len(result) ==> c20Nonce(result[j]) < c20Nonce(result[j - 1])
+//@ ensures [wf-items] c20ItemsOK(m) && c20CacheOK(m)
+//@ ensures [wf-index] assumed c20IndexOK(m)
+
+// ---------------------------------------------------------------------------------------------------------------
+// tx_list.go: txList — replacement rule and the cost / gas caps
+// ---------------------------------------------------------------------------------------------------------------
+
+//@ spec func c20Price(tx: *types.Transaction) int = big(tx.data.Price)
+//@ spec func c20Gas(tx: *types.Transaction) int = tx.data.GasLimit
+// cost == V + GP * GL
+//@ spec func c20Cost(tx: *types.Transaction) int = big(tx.data.Amount) + big(tx.data.Price) * tx.data.GasLimit
+//@ spec func c20TxOK(tx: *types.Transaction) bool = tx != nil && tx.data.Price != nil && tx.data.Amount != nil
+
+// Representation invariant of txList: a well-formed sorted map of well-formed transactions, and costcap / gascap are upper bounds
+// of the cost / gas limit of every listed transaction.
+//@ spec func c20CapsOK(l: *txList) bool = l.costcap != nil &&
+//@     forall k: int :: { in(k, l.txs.items) } in(k, l.txs.items) ==> c20TxOK(l.txs.items[k]) && c20Cost(l.txs.items[k]) <= big(l.costcap) && c20Gas(l.txs.items[k]) <= l.gascap
+//@ spec func c20ListOK(l: *txList) bool = l.txs != nil && c20MapOK(l.txs) && c20CapsOK(l)
+
+//@ owns txList.txs, txList.costcap, txList.gascap by newTxList, (*txList).Add, (*txList).Filter, (*txList).Forward, (*txList).Cap, (*txList).Remove, (*txList).Ready, (*txList).Flatten, (*txList).Len, (*txList).Overlaps props C20
+// (the `owns` check looks up callee purity without the property id: (*txSortedMap).Get — `pure` in its C20 contract above — has to be declared
+//  effect-free as well for the read `list.txs.Get(nonce)` in demoteUnexecutables to be accepted; engine_requests/C20.md §7)
+//@ effectfree (*github.com/youchainhq/go-youchain/core.txSortedMap).Get
+
+// Add: "replacing": a transaction takes the place of one with the same nonce only with a price bump: strictly higher price AND at least
+// old*(100+bump)/100; otherwise the list is unchanged. Accepted transactions keep the caps upper bounds.
+//@ func (*txList).Add props C20
+//@ panics none
+//@ requires [nonnil] l != nil && c20TxOK(tx)
+//@ requires [bump-range] priceBump < 2^63 - 100
+//@ assume [invariant] c20ListOK(l)
+//@ let n = c20Nonce(tx)
+//@ let prev = l.txs.items[c20Nonce(tx)]
+//@ modifies l.costcap, l.gascap, l.txs.cache, mapof(l.txs.items), *l.txs.index, all(elems(uint64))
+//@ let bumped = l.txs.items[c20Nonce(tx)] == nil || (c20Price(tx) > c20Price(l.txs.items[c20Nonce(tx)]) && c20Price(tx) >= ediv(c20Price(l.txs.items[c20Nonce(tx)]) * (100 + priceBump), 100))
+//@ ensures [replacement-rule] result0 == bumped
+//@ ensures [refused-unchanged] !result0 ==> result1 == nil && mapdom(l.txs.items) == old(mapdom(l.txs.items)) && mapval(l.txs.items) == old(mapval(l.txs.items)) &&
+//@     l.costcap == old(l.costcap) && l.gascap == old(l.gascap) && l.txs.cache == old(l.txs.cache)
+//@ ensures [inserted] result0 ==> result1 == prev && in(n, l.txs.items) && l.txs.items[n] == tx
+//@ ensures [others-kept] forall k: int :: { in(k, l.txs.items) } k != n ==> in(k, l.txs.items) == old(in(k, l.txs.items)) && l.txs.items[k] == old(l.txs.items[k])
+//@ ensures [caps-monotone] big(l.costcap) >= old(big(l.costcap)) && l.gascap >= old(l.gascap)
+//@ ensures [same-map] l.txs == old(l.txs)
+//@ ensures [wf-map] c20MapOK(l.txs)
+//@ ensures [caps-txs-wellformed] l.costcap != nil && forall k: int :: { in(k, l.txs.items) } in(k, l.txs.items) ==> c20TxOK(l.txs.items[k])
+//@ ensures [caps-costcap-upper-bound] forall k: int :: { in(k, l.txs.items) } in(k, l.txs.items) ==> c20Cost(l.txs.items[k]) <= big(l.costcap)
+//@ ensures [caps-gascap-upper-bound] forall k: int :: { in(k, l.txs.items) } in(k, l.txs.items) ==> c20Gas(l.txs.items[k]) <= l.gascap
+
+// The one-line wrappers: same effect as the map operation, and the list invariant is kept (removals keep the caps upper bounds).
+//@ func (*txList).Forward props C20
+//@ panics none
+//@ requires [nonnil] l != nil
+//@ assume [invariant] c20ListOK(l)
+//@ ensures [removes-exactly-below] forall k: int :: { in(k, l.txs.items) } in(k, l.txs.items) <==> old(in(k, l.txs.items)) && k >= threshold
+//@ ensures [kept-untouched] forall k: int :: { in(k, l.txs.items) } in(k, l.txs.items) ==> l.txs.items[k] == old(l.txs.items[k])
+//@ ensures [returned-were-below] forall j: int :: { result[j] } 0 <= j && j < len(result) ==> result[j] != nil && c20Nonce(result[j]) < threshold
+//@ ensures [returned-from-map] forall j: int :: { result[j] } 0 <= j && j < len(result) ==> (let n = c20Nonce(result[j]) in let t = result[j] in old(in(n, l.txs.items) && l.txs.items[n] == t))
+//@ ensures [count] len(result) == old(len(l.txs.items)) - len(l.txs.items)
+//@ ensures [wf] l.txs == old(l.txs) && l.costcap == old(l.costcap) && l.gascap == old(l.gascap) && c20MapOK(l.txs)
+//@ ensures [caps-upper-bound] c20CapsOK(l)
+
+//@ func (*txList).Ready props C20
+//@ panics none
+//@ requires [nonnil] l != nil
+//@ assume [invariant] c20ListOK(l)
+//@ let lo = (*l.txs.index)[0]
+//@ ensures [not-ready] old(len(l.txs.items)) == 0 || lo > start ==> len(result) == 0 && mapdom(l.txs.items) == old(mapdom(l.txs.items)) && mapval(l.txs.items) == old(mapval(l.txs.items))
+//@ ensures [least] old(len(l.txs.items)) > 0 ==> old(in(lo, l.txs.items)) && forall k: int :: { old(in(k, l.txs.items)) } old(in(k, l.txs.items)) ==> lo <= k
+//@ ensures [ready-nonempty] old(len(l.txs.items)) > 0 && lo <= start ==> len(result) > 0
+//@ ensures [gap-free-run] forall j: int :: { result[j] } 0 <= j && j < len(result) ==> result[j] != nil && c20Nonce(result[j]) == lo + j
+//@ ensures [run-from-map] forall j: int :: { result[j] } 0 <= j && j < len(result) ==> (let n = c20Nonce(result[j]) in let t = result[j] in old(in(n, l.txs.items) && l.txs.items[n] == t))
+//@ ensures [maximal] len(result) > 0 ==> !old(in(lo + len(result), l.txs.items))
+//@ ensures [removes-exactly-run] forall k: int :: { in(k, l.txs.items) } in(k, l.txs.items) <==> old(in(k, l.txs.items)) && !(lo <= k && k < lo + len(result))
+//@ ensures [kept-untouched] forall k: int :: { in(k, l.txs.items) } in(k, l.txs.items) ==> l.txs.items[k] == old(l.txs.items[k])
+//@ ensures [wf] l.txs == old(l.txs) && l.costcap == old(l.costcap) && l.gascap == old(l.gascap) && c20MapOK(l.txs)
+//@ ensures [caps-upper-bound] c20CapsOK(l)
+
+//@ func (*txList).Cap props C20
+//@ panics none
+//@ requires [nonnil] l != nil
+//@ requires [nonneg] threshold >= 0
+//@ assume [invariant] c20ListOK(l)
+//@ ensures [under-limit] old(len(l.txs.items)) <= threshold ==> len(result) == 0 && mapdom(l.txs.items) == old(mapdom(l.txs.items)) && mapval(l.txs.items) == old(mapval(l.txs.items))
+//@ ensures [capped] old(len(l.txs.items)) > threshold ==> len(l.txs.items) == threshold && len(result) == old(len(l.txs.items)) - threshold
+//@ ensures [kept-untouched] forall k: int :: { in(k, l.txs.items) } in(k, l.txs.items) ==> old(in(k, l.txs.items)) && l.txs.items[k] == old(l.txs.items[k])
+//@ ensures [returned-from-map] forall j: int :: { result[j] } 0 <= j && j < len(result) ==> (let n = c20Nonce(result[j]) in let t = result[j] in old(in(n, l.txs.items) && l.txs.items[n] == t))
+//@ ensures [returned-nonnil] forall j: int :: { result[j] } 0 <= j && j < len(result) ==> result[j] != nil
+//@ ensures [wf] l.txs == old(l.txs) && l.costcap == old(l.costcap) && l.gascap == old(l.gascap) && c20MapOK(l.txs)
+//@ ensures [caps-upper-bound] c20CapsOK(l)
+
+//@ func (*txList).Len props C20
+//@ panics none
+//@ requires [nonnil] l != nil
+//@ assume [invariant] c20ListOK(l)
+//@ pure
+//@ opt noalloc
+//@ ensures [len] result == len(l.txs.items)
+
+//@ func (*txList).Overlaps props C20
+//@ panics none
+//@ requires [nonnil] l != nil && tx != nil
+//@ assume [invariant] c20ListOK(l)
+//@ pure
+//@ opt noalloc
+//@ ensures [same-nonce-listed] result == in(c20Nonce(tx), l.txs.items)
+
+//@ func newTxList props C20
+//@ panics none
+//@ modifies nothing
+//@ ensures [fresh-empty] fresh(result) && result.strict == strict && len(result.txs.items) == 0 && result.gascap == 0 && big(result.costcap) == 0
+//@ ensures [wf] c20ListOK(result)
+
+// ---------------------------------------------------------------------------------------------------------------
+// tx_pool.go: admission (validateTx) and the three functions through which a transaction enters the indexes
+// ---------------------------------------------------------------------------------------------------------------
+
+// The converter interface (intrinsic gas): no effect on modelled state; the figure is observed through the ghost c20Intr.
+//@ ghost var c20Intr: int
+//@ func (IRouter).GetConverter props C20
+//@ trusted
+//@ modifies nothing
+//@ func (TxConverter).IntrinsicGas props C20
+//@ trusted
+//@ modifies nothing
+
+//@ effectfree (github.com/youchainhq/go-youchain/common.Address).String (*github.com/youchainhq/go-youchain/common.Address).String (github.com/youchainhq/go-youchain/common.Hash).String
+
+// validateTx: "affordable, not below the account nonce": nil is returned only for a transaction that passed every admission rule.
+// (The 32 KB size rule compares a float64 — not decided, see props.)
+// (panics are not obligations here: the error log at tx_pool.go:578 calls tx.To().String() — a nil dereference for a contract creation whose
+//  IntrinsicGas call fails; unreachable with the present converters for data <= 32 KB, reported as an observation, not a C20 clause)
+//@ func (*TxPool).validateTx props C20
+//@ requires [nonnil] pool != nil && c20TxOK(tx) && pool.currentState != nil && pool.locals != nil && pool.locals.accounts != nil && pool.gasPrice != nil && pool.router != nil
+//@ let from = c20Sender(pool.signer, tx)
+//@ ghost after call (TxConverter).IntrinsicGas: c20Intr := ret0
+//@ modifies c20Intr
+//@ ensures [value-nonnegative] result == nil ==> big(tx.data.Amount) >= 0
+//@ ensures [gas-within-block-limit] result == nil ==> c20Gas(tx) <= pool.currentMaxGas
+//@ ensures [sender-recovered] result == nil ==> c20SenderOK(pool.signer, tx)
+//@ ensures [price-floor] result == nil ==> local || in(from, pool.locals.accounts) || c20Price(tx) >= big(pool.gasPrice)
+//@ ensures [nonce-not-below-state] result == nil ==> c20Nonce(tx) >= c20StateNonce(pool.currentState, from)
+//@ ensures [affordable] result == nil ==> c20StateBal(pool.currentState, from) >= c20Cost(tx)
+//@ ensures [intrinsic-gas] result == nil ==> c20Gas(tx) >= c20Intr
+
+// The price-sorted list (eviction order) is outside what C20 claims here: ASSUMED thin frames (`nobody`), bodies not verified.
+//@ func (*txPricedList).Put props C20
+//@ nobody
+//@ modifies *l.items, all(elems(*types.Transaction))
+//@ func (*txPricedList).Removed props C20
+//@ nobody
+//@ modifies l.stales, l.items
+//@ effectfree time.Now
+
+// the lookup of all pooled transactions, keyed by hash
+//@ spec func c20Known(pool: *TxPool, h: common.Hash) bool = in(h, pool.all.all)
+
+//@ func (*txLookup).Get props C20
+//@ panics none
+//@ requires [nonnil] t != nil
+//@ pure
+//@ opt noalloc
+//@ ensures [lookup] result == t.all[hash]
+
+//@ func (*txLookup).Count props C20
+//@ panics none
+//@ requires [nonnil] t != nil && t.all != nil
+//@ pure
+//@ opt noalloc
+//@ ensures [count] result == len(t.all)
+
+//@ func (*txLookup).Add props C20
+//@ panics none
+//@ requires [nonnil] t != nil && t.all != nil && tx != nil
+//@ modifies mapof(t.all)
+//@ ensures [added] in(c20Hash(tx), t.all) && t.all[c20Hash(tx)] == tx
+//@ ensures [others-kept] forall h: common.Hash :: h != c20Hash(tx) ==> in(h, t.all) == old(in(h, t.all)) && t.all[h] == old(t.all[h])
+
+//@ func (*txLookup).Remove props C20
+//@ panics none
+//@ requires [nonnil] t != nil && t.all != nil
+//@ modifies mapof(t.all)
+//@ ensures [removed] !in(hash, t.all)
+//@ ensures [others-kept] forall h: common.Hash :: h != hash ==> in(h, t.all) == old(in(h, t.all)) && t.all[h] == old(t.all[h])
+
+// enqueueTx: the transaction goes to the SENDER's queue list, under the replacement rule; `all` gains it iff the list took it, and loses
+// exactly the replaced one; the pending index is not touched.
+//@ func (*TxPool).enqueueTx props C20
+//@ requires [nonnil] pool != nil && c20TxOK(tx) && pool.queue != nil && pool.all != nil && pool.all.all != nil && pool.priced != nil && pool.priced.items != nil
+//@ requires [hash] hash == c20Hash(tx)
+//@ requires [sender-recovered] c20SenderOK(pool.signer, tx)      // enqueueTx ignores the error of types.Sender: callers pass validated / already pooled transactions
+//@ requires [distinct-indexes] pool.pending != pool.queue
+//@ requires [bump-range] pool.config.PriceBump < 2^63 - 100
+//@ assume [invariant] forall a: common.Address :: { pool.queue[a] } pool.queue[a] != nil ==> c20ListOK(pool.queue[a])
+//@ let from = c20Sender(pool.signer, tx)
+//@ assert before call (*txList).Add: [own-queue-list] a0 == pool.queue[c20Sender(pool.signer, tx)] && a0 != nil && a1 == tx
+//@ assert before call (*txList).Add: [pending-untouched-so-far] mapdom(pool.pending) == old(mapdom(pool.pending)) && mapval(pool.pending) == old(mapval(pool.pending))
+//@ ensures [refused] result1 != nil ==> result1 == ErrReplaceUnderpriced && !result0 && mapdom(pool.all.all) == old(mapdom(pool.all.all)) && mapval(pool.all.all) == old(mapval(pool.all.all))
+//@ ensures [queued] result1 == nil ==> pool.queue[from] != nil && pool.queue[from].txs.items[c20Nonce(tx)] == tx && in(c20Nonce(tx), pool.queue[from].txs.items)
+//@ ensures [known-iff-queued] result1 == nil ==> c20Known(pool, hash)
+//@ ensures [pending-untouched] pool.pending == old(pool.pending) && mapdom(pool.pending) == old(mapdom(pool.pending)) && mapval(pool.pending) == old(mapval(pool.pending))
+//@ ensures [queue-list-wf] result1 == nil ==> c20ListOK(pool.queue[from])
+
+// promoteTx: the transaction goes to addr's pending list under the replacement rule; accepted: `all` holds it and the virtual nonce moves to
+// nonce+1; refused (an older, better one is pending): it is forgotten (`all` no longer holds it). The queue index is not touched.
+//@ func (*TxPool).promoteTx props C20
+//@ requires [nonnil] pool != nil && c20TxOK(tx) && pool.pending != nil && pool.all != nil && pool.all.all != nil && pool.priced != nil && pool.priced.items != nil &&
+//@     pool.beats != nil && pool.pendingNonces != nil && pool.pendingNonces.nonces != nil
+//@ requires [hash] hash == c20Hash(tx)
+//@ requires [distinct-indexes] pool.pending != pool.queue
+//@ requires [bump-range] pool.config.PriceBump < 2^63 - 100
+//@ assume [invariant] forall a: common.Address :: { pool.pending[a] } pool.pending[a] != nil ==> c20ListOK(pool.pending[a])
+//@ assert before call (*txList).Add: [own-pending-list] a0 == pool.pending[addr] && a0 != nil && a1 == tx
+//@ assert before call (*txList).Add: [queue-untouched-so-far] mapdom(pool.queue) == old(mapdom(pool.queue)) && mapval(pool.queue) == old(mapval(pool.queue))
+//@ ensures [promoted] result ==> pool.pending[addr] != nil && in(c20Nonce(tx), pool.pending[addr].txs.items) && pool.pending[addr].txs.items[c20Nonce(tx)] == tx
+//@ ensures [promoted-known] result ==> c20Known(pool, hash)
+//@ ensures [pending-nonce-advanced] result ==> pool.pendingNonces.nonces[addr] == wrap64(c20Nonce(tx) + 1)
+//@ ensures [refused-forgotten] !result ==> !c20Known(pool, hash)
+//@ ensures [queue-untouched] pool.queue == old(pool.queue) && mapdom(pool.queue) == old(mapdom(pool.queue)) && mapval(pool.queue) == old(mapval(pool.queue))
+//@ ensures [pending-list-wf] result ==> c20ListOK(pool.pending[addr])
+
+// add: guards. A transaction reaches a list (queue via enqueueTx, or the pending list for an in-place replacement) only after validateTx
+// returned nil for it in this call; a known hash is refused.
+// ASSUMED thin contracts (`nobody`) for the eviction helpers on the pool-full path: they do not reassign the pool's index pointers or signer.
+//@ ghost var c20Valid: int
+//@ func (*TxPool).removeTx props C20
+//@ nobody
+//@ ensures pool.signer == old(pool.signer) && pool.pending == old(pool.pending) && pool.queue == old(pool.queue) && pool.all == old(pool.all) && pool.all.all == old(pool.all.all) &&
+//@     pool.priced == old(pool.priced) && pool.config == old(pool.config) && pool.locals == old(pool.locals)
+//@ func (*txPricedList).Underpriced props C20
+//@ nobody
+//@ modifies l.stales, *l.items, all(elems(*types.Transaction))
+//@ func (*txPricedList).Discard props C20
+//@ nobody
+//@ modifies l.stales, *l.items, all(elems(*types.Transaction))
+//@ func (*TxPool).journalTx props C20
+//@ nobody
+//@ modifies nothing
+//@ func (*TxPool).queueTxEvent props C20
+//@ nobody
+//@ modifies nothing
+
+//@ func (*TxPool).add props C20
+//@ requires [nonnil] pool != nil && c20TxOK(tx) && pool.pending != nil && pool.queue != nil && pool.all != nil && pool.all.all != nil && pool.priced != nil && pool.priced.items != nil &&
+//@     pool.currentState != nil && pool.locals != nil && pool.locals.accounts != nil && pool.gasPrice != nil && pool.router != nil
+//@ requires [distinct-indexes] pool.pending != pool.queue
+//@ requires [bump-range] pool.config.PriceBump < 2^63 - 100
+//@ ghost after call (*TxPool).validateTx: c20Valid := if ret == nil then a1 else 0
+//@ loop #1 invariant [pool-fields-kept] pool.signer == old(pool.signer) && pool.config == old(pool.config) && pool.pending == old(pool.pending) && pool.queue == old(pool.queue) &&
+//@     pool.all == old(pool.all) && pool.all.all == old(pool.all.all) && pool.priced == old(pool.priced) && pool.locals == old(pool.locals) && c20Valid == tx
+//@ modifies all, c20Valid, c20Intr
+//@ assert before call (*TxPool).enqueueTx: [validated-before-queue] c20Valid == a2 && a2 == tx && a1 == c20Hash(tx)
+//@ assert before call (*txList).Add: [validated-before-replace] c20Valid == a1 && a1 == tx
+//@ assert before call (*txList).Add: [replace-only-overlapping-pending] a0 == pool.pending[from] && in(c20Nonce(tx), a0.txs.items)
+//@ ensures [known-refused] old(pool.all.all[c20Hash(tx)]) != nil ==> result1 != nil && !result0
+//@ ensures [accepted-was-validated] result1 == nil ==> c20Valid == tx
